@@ -445,4 +445,61 @@ Section Inv.
     - rewrite Hf. intros H1 H2. contradiction.
     - rewrite Hn. apply net_commit_only_after_ok.
   Qed.
+
+  (* requests: to the servers in order, one each, none after the lookup has finished *)
+  Definition LogInv (ss : list server) (s : st) : Prop :=
+    match s_l s with
+    | LRun rest cur _ => exists dn, ss = dn ++ cur :: rest /\ s_log s = map s_id (dn ++ [cur])
+    | _ => exists dn rest, ss = dn ++ rest /\ s_log s = map s_id dn
+    end.
+
+  Lemma loginv_next : forall ss f dn rest,
+    ss = dn ++ rest -> LogInv ss (next_server f (map s_id dn) rest).
+  Proof.
+    intros ss f dn rest H. unfold LogInv, next_server. destruct rest as [|s r]; cbn [s_l s_log].
+    - exists dn, []. split; [exact H|reflexivity].
+    - exists dn. split; [exact H|]. rewrite map_app. reflexivity.
+  Qed.
+
+  Lemma loginv_step : forall ss s e, LogInv ss s -> LogInv ss (step s e).
+  Proof.
+    intros ss s e H. unfold LogInv in H. unfold Model.step.
+    destruct (s_l s) as [rest cur ph|r|] eqn:Hl; [|unfold LogInv; rewrite Hl; exact H|unfold LogInv; rewrite Hl; exact H].
+    destruct H as [dn [Hss Hlog]].
+    assert (Hnext : forall f, LogInv ss (next_server f (s_log s) rest)).
+    { intro f. rewrite Hlog. apply loginv_next. rewrite <- app_assoc. exact Hss. }
+    assert (Hfin : forall f l, l = LDone (T:=T) RNotFound \/ l = LDropped \/ (exists t u, l = LDone (ROk t u)) ->
+                   LogInv ss (mkst f (s_log s) l)).
+    { intros f l Hl'. unfold LogInv. cbn [s_l s_log].
+      assert (E : exists dn0 rest0, ss = dn0 ++ rest0 /\ s_log s = map s_id dn0).
+      { exists (dn ++ [cur]), rest. split; [rewrite <- app_assoc; exact Hss|exact Hlog]. }
+      destruct Hl' as [->|[->|[t [u ->]]]]; exact E. }
+    assert (Hsame : forall f ph', LogInv ss (mkst f (s_log s) (LRun rest cur ph'))).
+    { intros f ph'. unfold LogInv. cbn [s_l s_log]. exists dn. split; [exact Hss|exact Hlog]. }
+    destruct ph as [|tf got]; destruct e as [code| |bs| | |]; try apply Hnext.
+    - destruct (400 <=? code); [apply Hnext|]. destruct (create_cache_file p (s_env cur) (s_fs s)) as [f1 tf]. apply Hsame.
+    - apply Hfin. right. left. reflexivity.
+    - destruct (early (got ++ bs)); [apply Hnext|].
+      destruct (tee_write (s_env cur) (s_fs s) tf (got ++ bs)) as [f1 tf1]. apply Hsame.
+    - destruct (parse got) as [[t x]|]; [|apply Hnext]. apply Hfin. right. right. exists t, (Some (s_url cur)). reflexivity.
+    - apply Hfin. right. left. reflexivity.
+  Qed.
+
+  Lemma loginv_run : forall ss evs s, LogInv ss s -> LogInv ss (run s evs).
+  Proof.
+    intros ss evs. induction evs as [|e evs IH]; intros s H; [exact H|].
+    cbn [Model.run fold_left]. apply IH. apply loginv_step. exact H.
+  Qed.
+
+  Lemma net_requests_prefix : forall f ss evs,
+    let s := run (net_start f ss) evs in
+    exists dn rest, ss = dn ++ rest /\ s_log s = map s_id dn.
+  Proof.
+    intros f ss evs s. assert (H : LogInv ss s).
+    { apply loginv_run. unfold Model.net_start. apply (loginv_next ss f [] ss). reflexivity. }
+    unfold LogInv in H. destruct (s_l s) as [rest cur ph|r|].
+    - destruct H as [dn [H1 H2]]. exists (dn ++ [cur]), rest. split; [rewrite <- app_assoc; exact H1|exact H2].
+    - exact H.
+    - exact H.
+  Qed.
 End Inv.
